@@ -148,6 +148,12 @@ def unrollLoop : Local
     some (unrolledCopies i b (hi - lo).toNat lo ++ r)
   | _ => none
 
+/-- `reorder_loops` / `lift_scope` of a loop directly nested in a loop -/
+def reorderLoops : Local
+  | .loop i lo1 hi1 [.loop j lo2 hi2 b par2] par1 :: r =>
+    some (.loop j lo2 hi2 [.loop i lo1 hi1 b par1] par2 :: r)
+  | _ => none
+
 def reorderStmts : Local
   | a :: b :: r => some (b :: a :: r)
   | _ => none
